@@ -628,6 +628,11 @@ def c03(tier):
     rep.add_mc(r, "MC_Open.cfg")
     if r["error"]:
         rep.spec_violation(r, "MC_Open.cfg")
+    r = vlib.tlc_mc("MC_Open.tla", "MC_Open_no_too_small_guard.cfg", wd, timeout=300, tag="mc-open-mutant")
+    found = bool(r["error"]) and "LocateFaithful" in r["error"]
+    rep.neg_controls.append({"spec_mutant": "no_too_small_guard", "expected_violation": "LocateFaithful", "found": found})
+    if not found:
+        raise ToolTrouble("spec mutant no_too_small_guard not detected")
     sd = vlib.seed()
     rnd = random.Random(sd * 9176 + 3)
     # spec -> impl: every tail shape of the model (those realisable below 4 GiB), materialised
@@ -635,7 +640,7 @@ def c03(tier):
     seen = set()
     scs = []
     for T in cases:
-        key = (T["p"], T["n"], T["c"], T["g"], T["z"], T["sent"])      # b, s are 32-bit classes: model-level only
+        key = (T["p"], T["n"], T["c"], T["g"], T["z"], T["sent"], T.get("dsent", False))      # b, s are 32-bit classes: model-level only
         if key in seen:
             continue
         seen.add(key)
